@@ -31,6 +31,9 @@ DevOf(t, v) ==
   IF "EnumIndexByDeclaration" \in Dev /\ UnsortedEnum(t) THEN "EnumIndexByDeclaration"
   ELSE IF "ChoiceIndexByDeclaration" \in Dev /\ UnsortedChoice(t) THEN "ChoiceIndexByDeclaration"
   ELSE IF "IntegerMaxAsBound" \in Dev /\ t.k = "int" /\ t.con.c = "semi" THEN "IntegerMaxAsBound"
+  ELSE IF "NamedBitsTrailingZeros" \in Dev /\ t.k = "bits" /\ "named" \in DOMAIN t THEN "NamedBitsTrailingZeros"
+  \* an unconstrained INTEGER lives in a u64; its values from 2^63 on
+  ELSE IF "UnsignedAboveI64Max" \in Dev /\ t.k = "int" /\ "big" \in DOMAIN t /\ t.con.c = "none" /\ BLeq(BPow2(63), v) THEN "UnsignedAboveI64Max"
   ELSE IF "CountNotFragmented" \in Dev /\ (t.k = "seqof" \/ (t.k = "str" /\ t.cs # "utf8"))
      /\ Len(v) >= 16384 /\ GeneralLength(t.sz, Len(v))
   THEN "CountNotFragmented"
@@ -49,6 +52,10 @@ Case(i, v) ==
                  \* "no constraint": an unconstrained (two's complement) whole number
                  ELSE IF DevOf(t, v) = "IntegerMaxAsBound" /\ v >= t.con.lb
                  THEN (IF t.con.lb = 0 THEN UnconstrainedB(BOfInt(v)).bits ELSE ConstrainedB(BOfInt(t.con.lb), I64Max, BOfInt(v)).bits)
+                 \* the value is transmitted as it stands, with its trailing 0 bits (and refused where it is shorter than the lower bound)
+                 ELSE IF DevOf(t, v) = "NamedBitsTrailingZeros" /\ Enc(TBits(t.sz), v).ok THEN Enc(TBits(t.sz), v).bits
+                 \* the u64 goes through an i64: the two's complement encoding of v - 2^64 (a negative number for a conforming reader)
+                 ELSE IF DevOf(t, v) = "UnsignedAboveI64Max" THEN UnconstrainedB(BSub(v, BPow2(64))).bits
                  ELSE <<>>
   IN [ti |-> i, v |-> v, ok |-> e.ok, bits |-> e.bits, incons |-> Inconsistent(t, v), dev |-> DevOf(t, v), devbits |-> devbits]
 
